@@ -181,7 +181,12 @@ func (v *Voucher) DevicePublicKey() (crypto.PublicKey, error) {
 	if len(*v.CertChain) == 0 {
 		return nil, errors.New("empty cert chain")
 	}
-	return (*v.CertChain)[0].PublicKey, nil
+	// A CBOR null in place of the certificate decodes to a nil pointer
+	deviceCert := (*v.CertChain)[0]
+	if deviceCert == nil {
+		return nil, errors.New("device certificate in cert chain is null")
+	}
+	return deviceCert.PublicKey, nil
 }
 
 // OwnerPublicKey extracts the voucher owner's public key from either the
